@@ -162,6 +162,20 @@ func gramCases(j run.Job, yield func(c GCase)) {
 				yield(GCase{G: g, In: in, NT: nt, Fam: "hidden-lr"})
 			}
 		}
+	case "trimseq":
+		r := rand.New(rand.NewSource(j.Seed))
+		inputs := j.Param("inputs", 6)
+		for gi := 0; gi < j.N; gi++ {
+			g := gram.TrimSeq(r)
+			for ii := 0; ii < inputs; ii++ {
+				bias := 85
+				if ii == inputs-1 {
+					bias = 0
+				}
+				in := g.RandomInput(r, 0, 10, bias)
+				yield(GCase{G: g, In: in, NT: 0, Fam: "trimseq"})
+			}
+		}
 	case "layered":
 		r := rand.New(rand.NewSource(j.Seed))
 		inputs := j.Param("inputs", 6)
